@@ -142,6 +142,24 @@ func histString(h []Op) string {
 	return b.String()
 }
 
+// preludeInit: an Init function that builds the initial world by applying a fixed operation list to a new world
+// (so that the bounded exploration starts from a non-initial state), and the model of that state.
+func preludeInit(prelude []Op) (func(s *Spec) *World, *Model) {
+	build := func(cfg Cfg) *World {
+		w := NewWorld(cfg)
+		for _, o := range prelude {
+			if v := w.Apply(o); v != nil {
+				panic("machinery error: the prelude of a spec fails: " + v.Detail)
+			}
+		}
+		return w
+	}
+	w0 := build(defaultCfg)
+	base := w0.M.Clone()
+	w0.Close()
+	return func(s *Spec) *World { return build(s.Cfg) }, base
+}
+
 // replay builds a fresh world and applies hist; a violation during replay is a machinery error unless
 // allowViol is set (used when re-running a recorded violation).
 func replay(s *Spec, hist []Op) (*World, *Violation) {
